@@ -74,4 +74,21 @@ PROPS = {
             "depends on C01 through the regenerated walker table (theorem blocked_empty)",
         ],
     },
+    "C07": {
+        "theorems": {
+            "Solstat.Props.C07": [
+                "unsafeErc20_meets", "floatingPragma_meets", "reachesDivide_iff", "reachesMultiply_iff",
+                "divideBeforeMultiply_exact", "hasSenderCheck_eq", "unprotectedSelfdestruct_exact",
+                "unprotectedSelfdestruct_must_not", "unprotectedSelfdestruct_must_partial", "C07_local",
+            ],
+            "Solstat.Props.C01": ["C01", "blocked_empty", "kinds_by_name"],
+        },
+        "obs": [("det", ["--nolines", "unsafe_erc20", "divide_before_multiply", "floating_pragma", "unprotected_selfdestruct"])],
+        "kinds": ["DET"],
+        "groups": ["unsafeerc20", "dividebeforemultiply", "floatingpragma", "unprotectedselfdestruct"],
+        "assumptions": [
+            "unprotected_selfdestruct MUST half is proved for the hypothesis 'no call checks msg.sender' (theorem ..._must_partial); the property's mention-based wording is evaluated by the oracle on every input",
+            "depends on C01 through the regenerated walker table",
+        ],
+    },
 }
